@@ -50,7 +50,7 @@ func TestCheck(t *testing.T) {
 	for l := 1; l <= 3; l++ {
 		exh = append(exh, baseCfg{8, l, 2, all, allN})
 	}
-	explore(baseBody(exh, 16), engine.Opts{Name: "base/xi8-all-choice-bytes", Budget: engine.Budget(6*time.Minute, 15*time.Minute)})
+	explore(baseBody(exh, 16), engine.Opts{Name: "base/xi8-all-choice-bytes", Budget: engine.Budget(10*time.Minute, 20*time.Minute)})
 
 	var str []baseCfg
 	v16, n16 := structured(16, nil)
